@@ -121,6 +121,8 @@ impl CasManager {
                 source: e,
             })?;
         }
+        #[cfg(feature = "verif")]
+        crate::verif::point("F:rename");
         match std::fs::rename(staging_path, &final_cas_path) {
             Ok(()) => {
                 // On Unix the rename is atomic and will replace an existing file with the
@@ -157,6 +159,8 @@ impl CasManager {
     pub fn delete_blobs(&self, hashes: &[BlobHash]) -> Result<(), CasManagerError> {
         for hash in hashes {
             let file_path = self.paths.cas_file_path(hash);
+            #[cfg(feature = "verif")]
+            crate::verif::point("F:unlink");
             match std::fs::remove_file(&file_path) {
                 Ok(_) => {
                     tracing::debug!(
